@@ -29,6 +29,8 @@ def exn_name(e):
 
 def content(t, k):
     """the document the remote serves for type index t, release index k: a distinct term set per release"""
+    if EMPTY.get((t, k)):           # the remote serves nothing at all for this tag (a broken release asset)
+        return b''
     pre = TYPES[t].identifier
     ids = [1, 2, 3 + k, 10 + t]
     rev = REV.get((t, k), 0)        # the remote re-published this tag with other content
@@ -44,6 +46,7 @@ def content(t, k):
 
 
 REV = {}
+EMPTY = {}
 
 
 def expected_terms(t, k, view=0):
@@ -246,6 +249,7 @@ class Env:
         self.relative = relative
         self.views = {}
         REV.clear()
+        EMPTY.clear()
         if relative:
             os.chdir(self.base)
             self.store_dir = 'store'
@@ -530,9 +534,33 @@ def run_republish(payload, case, idx):
         env.cleanup()
 
 
+def run_empty(payload, case, idx):
+    """the remote serves ZERO bytes for a tag: the stored copy is byte-identical to that (an empty file), so it is a complete
+    local copy - loading it fails the same way every time, and the remote is asked once (evaluated directly)"""
+    env = Env(payload['workdir'], 'z%d' % idx, case['relative'], case['releases'])
+    t, r = case['t'], case['release']
+    EMPTY[(t, env.releases[t].index(r))] = True
+    direct, outcomes = [], []
+    try:
+        outcomes.append(env.load(t, r, full=case['full']))
+        first = env.snapshot()
+        if [t, r] not in first['finals'] or first['incomplete']:
+            direct.append(f'after the load the cache location of {r} does not hold the (zero) bytes the remote served: incomplete file {first["incomplete"]}')
+        for _ in range(2):
+            outcomes.append(env.load(t, r, full=case['full']))
+        last = env.snapshot()
+        if last['fetches'][len(first['fetches']):]:
+            direct.append(f'a complete local copy of {r} existed (the remote served zero bytes), yet the remote was asked for {last["fetches"][len(first["fetches"]):]}')
+        if len(set(outcomes)) != 1:
+            direct.append(f'loads of the same stored bytes did not succeed / fail alike: outcomes {outcomes}')
+        return {'outcomes': outcomes, 'direct': direct}
+    finally:
+        env.cleanup()
+
+
 def observe(payload):
     res = []
-    fn = {'history': run_history, 'kill': run_kill, 'race': run_race, 'latest': run_latest, 'republish': run_republish}
+    fn = {'empty': run_empty, 'history': run_history, 'kill': run_kill, 'race': run_race, 'latest': run_latest, 'republish': run_republish}
     for idx, case in enumerate(payload['cases']):
         try:
             res.append(fn[case['kind']](payload, case, idx))
